@@ -20,7 +20,7 @@ RULES = {
     'R9': 'the notifier\'s count is the number of chunks not taken yet, whatever the order of the reader\'s calls: qb_rb_chunk_peek gives the count it waited for back on every path (it takes no chunk), qb_rb_chunk_reclaim and qb_rb_chunk_read take one count for the chunk they take out (reclaim without blocking, and not at all if no count is there), and the internal reclaim they share takes none',
     'R10': 'a size the ring\'s 32-bit words cannot describe is refused at open: the requested size is compared with a constant below 2^32 before the margin is added to it, and the rounded size with a constant below 2^32 before word_size (a 32-bit field, as are the indices and each chunk\'s length word) is computed from it - otherwise the ring is silently smaller than asked for, or chunk lengths and index steps wrap',
 }
-FLOORS = {'R1': 6, 'R2': 9, 'R3': 5, 'R4': 5, 'R5': 9, 'R6': 5, 'R7': 4, 'R8': 2, 'R9': 4, 'R10': 2}
+FLOORS = {'R1': 6, 'R2': 9, 'R3': 5, 'R4': 5, 'R5': 9, 'R6': 6, 'R7': 4, 'R8': 2, 'R9': 4, 'R10': 2}
 
 
 def run(ctx):
@@ -338,8 +338,14 @@ def r6(ctx):
             wv = estr(ev.lhs)
         if field_is(ev.rhs, 'read_pt') and unwrap(ev.lhs).get('k') == 'var':
             rv = estr(ev.lhs)
+    loads = [ev for ev in f.events('LOAD') if field_is(ev.e, 'write_pt') or field_is(ev.e, 'read_pt')]
     if not wv or not rv:
-        raise AnalysisBroken('qb_rb_space_free: index snapshots not found')
+        if not loads and not any(field_is(n, 'read_pt') or field_is(n, 'write_pt') for b_ in f.blocks.values() if b_.cond is not None for n in walk(b_.cond)):
+            raise AnalysisBroken('qb_rb_space_free: the indices are not read')
+        ctx.check('R6', 'space_free:indices-read-once', False, f,
+                  '', 'qb_rb_space_free compares and subtracts the shared indices where it uses them, instead of working on one copy of each: they are volatile and the other side moves its own at any time - a read index that wraps between the comparison and the subtraction gives the writer a free space of about 2^32 words, and it overwrites unread chunks')
+        return
+    ctx.check('R6', 'space_free:indices-read-once', True, f, 'qb_rb_space_free works on one copy of each index (%s, %s)' % (wv, rv), '')
     sts = [ev for ev in f.events('STORE') if ev.d['op'] == '=' and unwrap(ev.lhs).get('k') == 'var' and estr(ev.lhs) not in (wv, rv)]
     seen = {}
     for ev in sts:
